@@ -81,6 +81,12 @@ class GatherImpl:
         self.gate[t].set_exception(TaskError(t))
         self._scan()
 
+    def fail_cancelled(self, t):
+        """The future the body awaits is cancelled: the body raises CancelledError on its own."""
+        self.outcome[t] = "cancel"
+        self.gate[t].cancel()
+        self._scan()
+
     def step(self):
         if not self.loop.step():
             raise RuntimeError("nothing to step")
@@ -272,8 +278,10 @@ def gather_apply(impl, name, args, src=None, dst=None):
         impl.complete(args[0])
     elif name == "Fail":
         impl.fail(args[0])
+    elif name == "FailCancelled":
+        impl.fail_cancelled(args[0])
     elif name == "Resolve":
-        (impl.complete if args[1] == "ok" else impl.fail)(args[0])
+        {"ok": impl.complete, "fail": impl.fail, "cancel": impl.fail_cancelled}[args[1]](args[0])
     elif name == "Step":
         impl.step()
     else:
@@ -371,6 +379,12 @@ class OnlineImpl:
     def fail(self, t):
         self.outcome[t] = "fail"
         self.gate[t].set_exception(TaskError(t))
+        self._scan()
+
+    def fail_cancelled(self, t):
+        """The future the body awaits is cancelled: the body raises CancelledError on its own."""
+        self.outcome[t] = "cancel"
+        self.gate[t].cancel()
         self._scan()
 
     def step(self):
